@@ -521,7 +521,8 @@ def make_forms(args, form, rng):
             if isinstance(a, np.ndarray):
                 try:
                     if a.shape == (4,) and np.any(a):
-                        o_ = ahrs.Quaternion(np.array(a, float), versor=False)
+                        # (every other time an object derived by arithmetic from another one: the same values, but not a freshly constructed object)
+                        o_ = ahrs.Quaternion(np.array(a, float), versor=False) if float(a[0]) * 1e6 % 2 < 1 else -ahrs.Quaternion(-np.array(a, float), versor=False)
                     elif a.ndim == 2 and a.shape[1] == 4 and a.shape[0] > 0 and np.all(np.isfinite(a)) and np.all(np.any(a != 0, axis=1)):
                         o_ = ahrs.QuaternionArray(np.array(a, float), versors=False)
                     elif a.shape == (3, 3) and np.all(np.isfinite(a)) and np.abs(a @ a.T - np.eye(3)).max() < 1e-9 and abs(np.linalg.det(a) - 1) < 1e-9:
